@@ -34,6 +34,19 @@ M = [
  ("C05-ignore-patches", "lists/vertex_list.py", "                if dupe.patches == slave_patches:\n                    return dupe.vertex", "                return dupe.vertex", ["C05"]),
  ("C05-master-not-removed", "mesh.py", "            patches = patches.intersection(self.patch_list.slave_patches)\n", "", ["C05"]),
  ("C05-corner-patches-wrong-side", "construct/operations/operation.py", "patches.add(self.side_patches[(index + 3) % 4])", "patches.add(self.side_patches[(index + 1) % 4])", ["C05"]),
+ ("C12-backport-by-position", "mesh.py", "for op, block in zip(self.assembled_operations, self.blocks):", "for op, block in zip(self.operations, self.blocks):", ["C12"]),
+ ("C12-assembled-ops-not-cleared", "mesh.py", "        self.assembled_operations.clear()\n", "", ["C12"]),
+ ("C12-no-grading-reset", "lists/block_list.py", "        for block in self.blocks:\n            block.reset_grading()\n", "", ["C12"]),
+ ("C12-reset-keeps-propagated-chops", "items/wires/manager.py", "        # chops were copied from neighbours\n        self.chops = []\n", "", ["C12"]),
+ ("C12-patch-mods-forgotten", "lists/patch_list.py", "            if name in self.modified:", "            if False:", ["C12"]),
+ ("C12-face-list-not-cleared", "mesh.py", "        self.face_list.clear()\n", "", ["C12"]),
+ ("C12-edge-list-not-cleared", "mesh.py", "        self.edge_list.clear()\n", "", ["C12"]),
+ ("C12-duplicated-not-cleared", "lists/vertex_list.py", "        self.vertices.clear()\n        self.duplicated.clear()", "        self.vertices.clear()", ["C12"]),
+ ("C12-deleted-ignored-in-assemble", "mesh.py", "                if operation in self.deleted:\n                    continue\n", "", ["C12"]),
+ ("C12-backport-top-face-only", "mesh.py", "            op.bottom_face.update(vertices[:4])\n", "", ["C12"]),
+ ("C12-backport-no-reassemble", "mesh.py", "        self.clear()\n        self.assemble()\n\n    def format_settings", "        self.clear()\n\n    def format_settings", ["C12"]),
+ ("C12-clear-forgets-default-patch", "lists/patch_list.py", "        self.patches.clear()\n", "        self.patches.clear()\n        self.default = {}\n", ["C12"]),
+ ("C12-clear-forgets-merged", "lists/patch_list.py", "        self.patches.clear()\n", "        self.patches.clear()\n        self.merged = []\n", ["C12"]),
 ]
 
 
